@@ -514,7 +514,7 @@ def r8_context_covers_iteration(prog, rep: Report, pf: PoolFacts):
     from ..resolve import Scope
     rep.rule("C02.R8", "helper threads run for the whole call: in every pool method that wraps a delegated imap/imap_unordered in a "
              "`with <thread>(...)` block, the delegate's generator is iterated inside the block (yield from, or a loop that yields); a "
-             "`return <generator>` leaves the block - and stops the thread - before the first element is requested", floor=2)
+             "`return <generator>` leaves the block - and stops the thread - before the first element is requested", floor=1)
     pools = [pf.pool] + [c for c in prog.classes.values() if c is not pf.pool and pf.pool in (c.mro or []) and not c.is_external]
     n = 0
     for c in pools:
@@ -530,6 +530,12 @@ def r8_context_covers_iteration(prog, rep: Report, pf: PoolFacts):
                     tgt = sc.resolve_call(call)
                     if isinstance(tgt, Func) and tgt.is_generator:
                         gens.append(call)
+                if not gens:
+                    # a delegate handed in as a parameter (`yield from plain_call(data, chunk_size)` in a shared helper): its
+                    # generator is consumed by the yield from just the same
+                    params_ = set(f.params)
+                    gens = [y.value for st in w.body for y in ast.walk(st) if isinstance(y, ast.YieldFrom) and isinstance(y.value, ast.Call)
+                            and isinstance(y.value.func, ast.Name) and y.value.func.id in params_]
                 if not gens:
                     continue
                 n += 1
@@ -549,4 +555,4 @@ def r8_context_covers_iteration(prog, rep: Report, pf: PoolFacts):
                 else:
                     rep.unrec("C02.R8", f, role, "a delegated generator inside the with-block is neither iterated there nor returned")
     if n == 0:
-        rep.error("C02.R8: no pool method wraps a delegated generator in a with-block (floor 2)")
+        rep.error("C02.R8: no pool method wraps a delegated generator in a with-block (floor 1)")
